@@ -5,6 +5,7 @@
 import ast
 from ast import ClassDef, Constant, Expr, FunctionDef, Load, Name
 from collections import OrderedDict
+from copy import deepcopy
 from functools import partial
 from itertools import chain
 from typing import Optional
@@ -78,6 +79,7 @@ def class_(
     ), "Expected `dict` got `{type_name}`".format(
         type_name=type(intermediate_repr).__name__
     )
+    intermediate_repr = deepcopy(intermediate_repr)
     assert class_name or intermediate_repr["name"], "Class has no name"
 
     returns: OrderedDict = (
